@@ -273,11 +273,14 @@ PROPS = {
         "assumptions": EVAL_ASSUME,
     },
     "C05": {
-        "proof_modules": ["GrolProofs.Props.C05", "GrolProofs.RegRewrite", "GrolProofs.RegSim"],
+        "proof_modules": ["GrolProofs.Props.C05", "GrolProofs.RegRewrite", "GrolProofs.RegSim", "GrolProofs.RegSimEnv", "GrolProofs.RegSimStmt"],
         "theorems": ["Grol.Reg.C05.loop_balanced", "Grol.Reg.C05.nested_loops_balanced", "Grol.Reg.C05.sequence_balanced",
                      "Grol.RegRewrite.modifyR_spec", "Grol.RegRewrite.C05.rewrite_shape", "Grol.RegRewrite.C05.rewrite_shape_nested",
                      "Grol.RegRewrite.C05.rewrite_refuses", "Grol.RegRewrite.C05.useRegister_spec",
                      "Grol.RegRewrite.C05.read_sim", "Grol.RegRewrite.sim_arith", "Grol.RegRewrite.C05.simulation_partial",
+                     "Grol.RegRewrite.sim_all", "Grol.RegRewrite.noCallStmt_rel", "Grol.RegRewrite.C05.simulation_stmt_partial",
+                     "Grol.RegRewrite.refNames_initState", "Grol.RegRewrite.TriA.createOrSet", "Grol.RegRewrite.TriA.envGet",
+                     "Grol.RegRewrite.TriA.makeRef", "Grol.RegRewrite.TriA.envDelete",
                      "Grol.Generated.RegFacts.C05.loop_eligibility_pinned", "Grol.Generated.RegFacts.C05.param_eligibility_pinned",
                      "Grol.RegRewrite.C05.registerEligible_is_the_pinned_test"],
         "generated": True,
@@ -293,7 +296,8 @@ PROPS = {
                                    "source text of its `useReg := …` expression, regenerated on every run (lean/Grol/Generated/RegFacts.lean, harness/cmd/harness/extract_regfacts.go) "
                                    "and pinned by theorem (reading that text as the model's registerEligible is by inspection), plus the eval suite (registers on vs off on every generated loop)",
                                    "the register-aware evaluation (a register read yields the integer it holds) is a definition of GrolProofs/RegSim.lean, tied to the code only "
-                                   "through the eval suite (registers on vs the register-free model)"],
+                                   "through the eval suite (registers on vs the register-free model); the statement-level simulation (GrolProofs/RegSimStmt.lean) assumes RefNames "
+                                   "(every stored reference carries its key) of the start state: proved for the initial state and preserved by all call-free code, not proved across calls"],
         "assumptions": EVAL_ASSUME,
     },
     "C07": {
